@@ -30,7 +30,7 @@ let six f = String.concat "" (List.map (fun k -> b2s (f (ni k))) [ 0; 1; 2; 3; 4
 let sets =
   [ ("var.A", [ TInt; TFloat ]); ("var.B", [ TInt; TTr; TFloat ]); ("var.C", [ TTr; TTr2 ]);
     ("var.D", [ TInt; TLong; TChar; TTr ]); ("var.E", [ TBool; TTr ]); ("var.F", [ TChar; TTr; TDouble ]);
-    ("var.G", [ TFloat; TLong ]) ]
+    ("var.G", [ TFloat; TLong ]); ("var.H", [ TBool; TStr ]); ("var.I", [ TStr; TTr; TBool ]) ]
 
 (* ------------------------------------------------------------------ variant *)
 let vop_of alts s =
@@ -90,6 +90,8 @@ let var_model alts steps =
       | _ -> raise (Bad "visit-shape"))
     [ a; b ];
   add [ six (fun k -> ok_or (var_rel alts k a b)); six (fun k -> ok_or (var_rel alts k b a)) ];
+  (* value categories handed to the visitor: not modelled beyond "the category of the variant expression" *)
+  add [ "vc"; "lcrkrc" ];
   add ("v2" :: List.concat_map (fun (t, v) -> [ sn (ty_id t); si v ]) (ok_or (visit_types [ alts; alts ] [ a; b ])));
   add
     ("v3"
@@ -125,6 +127,7 @@ let var_spec alts steps =
       | _ -> raise (Bad "visit-shape"))
     [ a; b ];
   add [ six (fun k -> sv_rel k a b); six (fun k -> sv_rel k b a) ];
+  add [ "vc"; "lcrkrc" ];
   add ("v2" :: List.concat_map (fun (t, v) -> [ sn (ty_id t); si v ]) (sv_visit [ alts; alts ] [ a; b ]));
   add ("v3" :: List.concat_map (fun (t, v) -> [ sn (ty_id t); si v ]) (sv_visit [ alts; alts; alts ] [ b; a; b ]));
   add [ "life"; "ok" ];
@@ -162,6 +165,20 @@ let oop_of s =
 let f_and_then v = if Big.equal (big_of_z v) (Big.of_int 2) then None else Some (z_of_big (Big.mul (big_of_z v) (Big.of_int 10)))
 let so = function Some v -> si v | None -> "-1"
 let sstate = function Some v -> [ "1"; si v ] | None -> [ "0"; "-1" ]
+let qletter = function Some QL -> "l" | Some QC -> "c" | Some QR -> "r" | Some QCR -> "k" | None -> "-"
+
+(* observers of the ref-qualified overloads of optional (layout of OptRunner::observers after "q"):
+   at q f byval -> ((result, category), object) ; oe q -> (result, object) ; vo q -> (value, object) ;
+   tk q -> (value, object) option ; view : object -> Z option *)
+let opt_qual_observers at oe vo tk view =
+  let cats = String.concat "" (List.map (fun q -> let (_, c), _ = at q (fun v -> Some v) false in qletter c) [ QL; QC; QR; QCR ]) in
+  let a3 q = let (r, _), t = at q f_and_then true in [ so r ] @ sstate (view t) in
+  let o2 q = let r, t = oe q in sstate r @ sstate (view t) in
+  let v2 q = let v, t = vo q in [ si v ] @ sstate (view t) in
+  let t2 q obj = match tk q with Some (v, t) -> [ si v ] @ sstate (view t) | None -> [ "-1" ] @ sstate (view obj) in
+  fun obj ->
+    [ "q"; cats ] @ a3 QR @ a3 QCR @ a3 QL @ o2 QR @ o2 QCR @ v2 QR @ v2 QCR @ t2 QR obj @ t2 QCR obj @ t2 QL obj
+
 
 let opt_model tT tU steps =
   let buf = ref [ "ok" ] in
@@ -186,6 +203,13 @@ let opt_model tT tU steps =
     add [ r; r; r ];
     let g = sstate (ok_or (opt_or_else tT a (Some (zi 42)))) in
     add (g @ g @ sstate (ok_or (opt_or_else tT a None)));
+    add
+      (opt_qual_observers
+         (fun q f bv -> ok_or (opt_and_then_q tT q a f bv))
+         (fun q -> ok_or (opt_or_else_q tT q a (Some (zi 42))))
+         (fun q -> ok_or (opt_value_or_q tT q a (zi 7)))
+         (fun q -> if has_value a then Some (ok_or (opt_take_q tT q a)) else None)
+         view a);
     add [ "r"; six (fun k -> ok_or (opt_rel k a b)); six (fun k -> ok_or (opt_rel k b a)) ];
     add [ String.concat "" (List.map (fun k -> b2s (opt_rel_null (ni k) a)) [ 0; 1; 2; 3; 4; 5 ]) ];
     List.iter
@@ -227,6 +251,13 @@ let opt_spec tT tU steps =
     add [ r; r; r ];
     let g = sstate (so_or_else a (Some (zi 42))) in
     add (g @ g @ sstate (so_or_else a None));
+    add
+      (opt_qual_observers
+         (fun q f bv -> so_and_then_q tT q a f bv)
+         (fun q -> so_or_else_q tT q a (Some (zi 42)))
+         (fun q -> so_value_or_q tT q a (zi 7))
+         (fun q -> so_take_q tT q a)
+         (fun x -> x) a);
     add [ "r"; six (fun k -> so_rel k a b); six (fun k -> so_rel k b a) ];
     add [ String.concat "" (List.map (fun k -> b2s (so_rel_null (ni k) a)) [ 0; 1; 2; 3; 4; 5 ]) ];
     List.iter
@@ -264,6 +295,25 @@ let f_exp v = if is2 v then (false, zi 55) else (true, times10 v)
 let g_exp e = if is2 e then (true, zi 66) else (false, times10 e)
 let pstate (h, v) = [ b2s h; si v ]
 
+(* observers of the four ref-qualified overloads (layout of ExpRunner::observers after "q") *)
+(* fc / gc of the harness: identity mapping, do not consume their argument *)
+let fc_exp v = (true, v)
+let gc_exp e = (false, e)
+
+(* at : q -> callee -> byval -> ((result, category), object after) ; view : object -> (bool, Z) *)
+let qual_observers at ot vo tk view =
+  let cats =
+    String.concat ""
+      (List.map (fun q -> let (_, c), _ = at q fc_exp false in qletter c) [ QL; QC; QR; QCR ]
+      @ List.map (fun q -> let (_, c), _ = ot q gc_exp false in qletter c) [ QL; QC; QR; QCR ])
+  in
+  let pair ((r, _), t) = pstate r @ pstate (view t) in
+  [ "q"; cats ]
+  @ pair (at QR f_exp true) @ pair (at QCR f_exp true) @ pair (ot QR g_exp true) @ pair (ot QCR g_exp true)
+  @ pair (at QL f_exp true) @ pair (ot QL g_exp true)
+  @ List.concat_map (fun q -> let v, t = vo q in si v :: pstate (view t)) [ QR; QCR ]
+  @ List.concat_map (fun q -> let v, t = tk q in si v :: pstate (view t)) [ QR; QCR; QL ]
+
 let exp_model tT tE steps =
   let buf = ref [ "ok" ] in
   let add l = buf := List.rev_append l !buf in
@@ -285,7 +335,14 @@ let exp_model tT tE steps =
     let r = pstate (ok_or (exp_and_then a f_exp)) in
     add (r @ r @ r);
     let r = pstate (ok_or (exp_or_else a g_exp)) in
-    add (r @ r @ r)
+    add (r @ r @ r);
+    add
+      (qual_observers
+         (fun q f bv -> ok_or (exp_and_then_q tT tE q a f bv))
+         (fun q g bv -> ok_or (exp_or_else_q tT tE q a g bv))
+         (fun q -> ok_or (exp_value_or_q tT q a (zi 7)))
+         (fun q -> if exp_has_value a then ok_or (exp_take_q tT q a) else ok_or (exp_take_error_q tE q a))
+         view)
   in
   observers a;
   observers b;
@@ -317,7 +374,17 @@ let exp_spec tT tE steps =
     let r = pstate (se_and_then a f_exp) in
     add (r @ r @ r);
     let r = pstate (se_or_else a g_exp) in
-    add (r @ r @ r)
+    add (r @ r @ r);
+    add
+      (qual_observers
+         (fun q f bv -> se_and_then_q tT tE q a f bv)
+         (fun q g bv -> se_or_else_q tT tE q a g bv)
+         (fun q -> se_value_or_q tT q a (zi 7))
+         (fun q ->
+           match (match a with Inl _ -> se_take_q tT q a | Inr _ -> se_take_error_q tE q a) with
+           | Some r -> r
+           | None -> raise (Bad "na"))
+         view)
   in
   observers a;
   observers b;
@@ -325,49 +392,72 @@ let exp_spec tT tE steps =
   join (List.rev !buf)
 
 (* ------------------------------------------------------------------ optional<T&> *)
-let rop_of s =
+(* cst: the family with a const referent type (the cref families): no write-through; the converting
+   constructors from optional<T> const& / optional<T&> const& exist only there *)
+let rop_of (cst, fromz) s =
   let t = tb s.t in
   match s.opc with
   | 'a' | 'e' | 'j' -> RBind (t, ni (s.p mod 3))
   | 'n' | 'r' -> RNull t
   | 'c' | 'm' | 'k' -> RCopy t
   | 's' -> RSwap
-  | 'w' -> RWrite (t, zi s.q)
+  | 'w' when not cst -> RWrite (t, zi s.q)
   | 'f' -> RSelf t
+  | 'W' -> RCellSet (ni (s.p mod 3), zi s.q)
+  | ('o' | 'i' | 'O') when cst -> RFromOpt t
+  | ('x' | 'X') when fromz -> RFromRef t
+  | ('q' | 'Q') when cst -> RAssignOpt t
+  | ('y' | 'Y') when fromz -> RAssignRef t
+  | 'z' -> RZBind (ni (s.p mod 3))
+  | 'Z' -> RZNull
+  | 'S' -> RSrcAssign (zi s.q)
+  | 'E' -> RSrcEmplace (zi s.q)
+  | 'R' -> RSrcReset
   | _ -> raise Not_found
 
-let ref_line cs pa pb deref =
+let tgt_id = function RCell c -> sn c | RSrc -> "3"
+
+(* deref: Some v / None (no defined value: dangling) *)
+let ref_line cs (hs, vs) pa pb pz deref =
   let one p =
     match p with
-    | Some c -> [ "1"; sn c; si (deref cs p) ]
+    | Some g -> [ "1"; tgt_id g; (match deref p with Some v -> si v | None -> "dang") ]
     | None -> [ "0"; "-1"; "-1" ]
   in
   let h = b2s (pa <> None) in
-  one pa @ one pb @ List.map si cs @ [ h; h; ";" ]
+  one pa @ one pb @ one pz @ [ b2s hs; (if hs then si vs else "-1") ] @ List.map si cs @ [ h; h; h; ";" ]
 
-let ref_model steps =
+let ref_model ty cst steps =
   let buf = ref [ "ok" ] in
   let add l = buf := List.rev_append l !buf in
-  let st = ref { cells = [ zi 1; zi 2; zi 3 ]; pa = None; pb = None } in
+  let st = ref { cells = [ zi 1; zi 2; zi 3 ]; src = opt_empty; pa = None; pb = None; pz = None } in
   List.iter
     (fun s ->
-      st := ok_or (rstep !st (rop_of s));
-      add (ref_line !st.cells !st.pa !st.pb (fun cs p -> ok_or (ref_deref cs p))))
+      st := ok_or (rstep ty !st (rop_of cst s));
+      let sr = !st.src in
+      let hs = has_value sr in
+      add
+        (ref_line !st.cells
+           (hs, if hs then ok_or (opt_deref sr) else Z0)
+           !st.pa !st.pb !st.pz
+           (fun p -> match ref_deref !st.cells sr p with Ok v -> Some v | UB _ -> None | r -> Some (ok_or r))))
     steps;
   add [ "life"; "ok" ];
   join (List.rev !buf)
 
-let ref_spec steps =
+let ref_spec cst steps =
   let buf = ref [ "ok" ] in
   let add l = buf := List.rev_append l !buf in
-  let st = ref ([ zi 1; zi 2; zi 3 ], (None, None)) in
+  let st = ref (([ zi 1; zi 2; zi 3 ], None), ((None, None), None)) in
   List.iter
     (fun s ->
-      st := sr_step !st (rop_of s);
-      let cs, (pa, pb) = !st in
+      (match sr_step !st (rop_of cst s) with Some s' -> st := s' | None -> raise (Bad "na"));
+      let (cs, sr), ((pa, pb), pz) = !st in
       add
-        (ref_line cs pa pb (fun cs p ->
-             match p with Some c -> List.nth cs (int_of_nat c) | None -> raise (Bad "null"))))
+        (ref_line cs
+           (match sr with Some v -> (true, v) | None -> (false, Z0))
+           pa pb pz
+           (fun p -> sr_deref cs sr p)))
     steps;
   add [ "life"; "ok" ];
   join (List.rev !buf)
@@ -418,9 +508,13 @@ let run_case op tk =
           let tE = if op = "unx.il" then TInt else TTr in
           let steps = read_steps tk in
           (guard (fun () -> unx_leg (ustep tE) steps), guard (fun () -> unx_leg (su_step tE) steps))
-      | "ref.i" | "ref.t" ->
+      | "ref.i" | "ref.t" | "cref.i" | "cref.t" | "bref.d" | "cbref.d" ->
           let steps = read_steps tk in
-          (guard (fun () -> ref_model steps), guard (fun () -> ref_spec steps))
+          (* (const referent type, conversions from the optional<T&> z exist) *)
+          let cst = (op = "cref.i" || op = "cref.t" || op = "cbref.d", op <> "ref.i" && op <> "ref.t") in
+          (* Derived (bref.d, cbref.d) is a trivially copyable class: for the source optional it behaves like int *)
+          let ty = if op = "ref.t" || op = "cref.t" then TTr else TInt in
+          (guard (fun () -> ref_model ty cst steps), guard (fun () -> ref_spec cst steps))
       | "disp" ->
           let sizes = List.map ni (next_intlist tk) in
           let idx = List.map ni (next_intlist tk) in
